@@ -143,7 +143,11 @@ static long run_once(const Scen& s, const std::string& xml, const std::string& p
   if (o.data) mj_deleteData(o.data);
   if (o.model) mj_deleteModel(o.model);
   if (o.spec) mj_deleteSpec(o.spec);
-  if (o.scn_made && !trapped) mjv_freeScene(&o.scn);
+  // the mjvScene struct is owned by the caller: mjv_makeScene stores every block in it before the next request
+  // (scn->geoms = mju_malloc(..); scn->geomorder = mju_malloc(..); ...) and starts from an all-zero struct
+  // (mjv_freeScene -> mjv_defaultScene), so after a trapped error the documented destructor can always be called
+  // and must release the partially built scene; what is left afterwards is a genuine leak.
+  if (o.scn_made) mjv_freeScene(&o.scn);
   if (o.buf) free(o.buf);
   if (trapped && c.data) mj_resetData(c.model, c.data);
   teardown(c);
